@@ -45,6 +45,30 @@ def make(kind):
         return converters.get_converter(cattrs.Converter(prefer_attrib_converters=True))
     if kind == "omitdefault":
         return converters.get_converter(cattrs.Converter(omit_if_default=True))
+    if kind == "interrupted-first":
+        # the process's first get_converter() is interrupted part-way through forward-reference resolution (Ctrl-C, here: the 50th call of
+        # attrs.resolve_types raises KeyboardInterrupt once); the application catches it and asks again: that converter must be a normal one
+        import attrs
+
+        real = attrs.resolve_types
+        state = {"n": 0}
+
+        def interrupted(*a, **k):
+            state["n"] += 1
+            if state["n"] == 50:
+                raise KeyboardInterrupt()
+            return real(*a, **k)
+
+        attrs.resolve_types = interrupted
+        try:
+            try:
+                converters.get_converter()
+                make.notes.append("interruption-not-reached" if state["n"] < 50 else "first-call-survived")
+            except KeyboardInterrupt:
+                make.notes.append("interrupted")
+        finally:
+            attrs.resolve_types = real
+        return converters.get_converter()
     if kind == "lenient":
         # a user converter that is deliberately lenient about a few enumerations (its own business): nobody else's converter may inherit that
         import lsprotocol.types as T
@@ -54,6 +78,9 @@ def make(kind):
             c.register_structure_hook(e, lambda v, _: v)
         return converters.get_converter(c)
     raise ValueError(kind)
+
+
+make.notes = []
 
 
 def battery(conv):
@@ -82,6 +109,19 @@ def battery(conv):
         (T.Diagnostic, {"range": {"start": {"line": 0, "character": 0}, "end": {"line": 0, "character": 1}}, "message": "m", "severity": 2, "extra": {"a": 1}}),
         (T.MarkupContent, {"kind": "html", "value": "v"}),
         (T.FileEvent, {"uri": "file:///a", "type": 4}),
+        # lists that go through hand-written list hooks, with items that carry multi-word (renamed) properties
+        (T.WorkspaceSymbolResponse, {"id": 1, "jsonrpc": "2.0", "result": [{"name": "n", "kind": 5, "containerName": "c", "location": {"uri": "u", "range": {"start": {"line": 0, "character": 0}, "end": {"line": 0, "character": 1}}}}]}),
+        (T.WorkspaceSymbolResponse, {"id": 1, "jsonrpc": "2.0", "result": [{"name": "n", "kind": 5, "containerName": "c", "location": {"uri": "u"}, "data": 1}]}),
+        (T.WorkspaceSymbolResponse, {"id": 1, "jsonrpc": "2.0", "result": [{"name": "n", "kind": 5, "containerName": "c", "deprecated": True, "location": {"uri": "u", "range": {"start": {"line": 0, "character": 0}, "end": {"line": 0, "character": 1}}}}]}),
+        (T.DocumentSymbolResponse, {"id": 1, "jsonrpc": "2.0", "result": [{"name": "n", "kind": 5, "range": {"start": {"line": 0, "character": 0}, "end": {"line": 0, "character": 1}}, "selectionRange": {"start": {"line": 0, "character": 0}, "end": {"line": 0, "character": 1}}, "children": []}]}),
+        (T.DocumentSymbolResponse, {"id": 1, "jsonrpc": "2.0", "result": [{"name": "n", "kind": 5, "containerName": "c", "location": {"uri": "u", "range": {"start": {"line": 0, "character": 0}, "end": {"line": 0, "character": 1}}}}]}),
+        (T.CompletionResponse, {"id": 1, "jsonrpc": "2.0", "result": {"isIncomplete": False, "items": [{"label": "x", "insertTextFormat": 2, "textEdit": {"newText": "t", "insert": {"start": {"line": 0, "character": 0}, "end": {"line": 0, "character": 1}}, "replace": {"start": {"line": 0, "character": 0}, "end": {"line": 0, "character": 2}}}}], "itemDefaults": {"commitCharacters": ["."], "insertTextMode": 1}}}),
+        (T.CodeActionResponse, {"id": 1, "jsonrpc": "2.0", "result": [{"title": "t", "command": "c"}, {"title": "a", "isPreferred": True, "edit": {"changeAnnotations": {"k": {"label": "l", "needsConfirmation": True}}}}]}),
+        (T.DefinitionResponse, {"id": 1, "jsonrpc": "2.0", "result": [{"targetUri": "u", "targetRange": {"start": {"line": 0, "character": 0}, "end": {"line": 0, "character": 1}}, "targetSelectionRange": {"start": {"line": 0, "character": 0}, "end": {"line": 0, "character": 1}}}]}),
+        (T.InlayHintResponse, {"id": 1, "jsonrpc": "2.0", "result": [{"position": {"line": 0, "character": 0}, "label": [{"value": "v", "tooltip": {"kind": "markdown", "value": "m"}}], "paddingLeft": True}]}),
+        (T.DocumentDiagnosticResponse, {"id": 1, "jsonrpc": "2.0", "result": {"kind": "full", "resultId": "r", "items": [], "relatedDocuments": {"u": {"kind": "unchanged", "resultId": "q"}}}}),
+        (T.SemanticTokensDeltaResponse, {"id": 1, "jsonrpc": "2.0", "result": {"resultId": "r", "edits": [{"start": 0, "deleteCount": 1, "data": [1]}]}}),
+        (T.NotebookDocumentSyncOptions, {"notebookSelector": [{"notebook": {"notebookType": "t"}, "cells": [{"language": "py"}]}], "save": True}),
         (T.DocumentSymbol, {"name": "n", "kind": 99, "range": {"start": {"line": 0, "character": 0}, "end": {"line": 0, "character": 1}}, "selectionRange": {"start": {"line": 0, "character": 0}, "end": {"line": 0, "character": 1}}}),
     ]
     for cls, j in cases:
@@ -115,6 +155,8 @@ def main():
         for i in spec["report"]:
             res[str(i)] = battery(convs[i])
         # re-check earlier converters after later ones were created and used
+    if make.notes:
+        res["notes"] = list(make.notes)
     print("RESULT " + json.dumps(res))
 
 
